@@ -144,13 +144,13 @@ YKINDS_QUICK = ["delete", "replace", "add_mark", "split"]
 def obligations(tier, seed):
     obs = []
     T = 200 if tier == "quick" else 900
-    docs = QUICK if tier == "quick" else [("list", 0), ("list", 1), ("list", 3), ("list", 8), ("strict", 0), ("strict", 1), ("iso", 0), ("iso", 1)]
-    kinds = YKINDS_QUICK if tier == "quick" else XKINDS
+    docs = QUICK if tier == "quick" else [("list", 0), ("list", 1), ("strict", 0), ("iso", 1)]
+    kinds = YKINDS_QUICK if tier == "quick" else YKINDS_QUICK + ["insert", "wrap", "lift", "set_block_type"]
     for (sn, i) in docs:
         p = {"schema": sn, "doc": i}
         C_ = ops.payloads(common.load(p))
         nall = len(all_single_steps(C_, XKINDS))
-        want = 24 if tier == "quick" else 320
+        want = 24 if tier == "quick" else 60
         n = len(range(0, nall, max(1, nall // want)))
         chunk = 3 if tier == "quick" else 4
         for kind in kinds:
